@@ -83,6 +83,9 @@ func (a *orValueLoader) begin(lex lexeme.LexEvent) {
 // ex: [" <--
 // ex: ] <--
 func (a *orValueLoader) itemBeginOrArrayEnd(lex lexeme.LexEvent) {
+	if isNoteInsideAnnotation(lex) {
+		return
+	}
 	switch lex.Type() {
 	case lexeme.ArrayItemBegin:
 		a.stateFunc = a.itemInner
